@@ -16,48 +16,22 @@ open PyGql PyGql.Coerce PyGql.Generated.Scalars
 
 private theorem coerceInt_sound {reg : Reg} {n : String} (hn : reg.get? n = some .int) {v : JV} {pv : PV}
     (h : coerceInt v = .ok pv) : Conforms reg (.named n) pv ∧ pv.isNone = false := by
-  cases v with
-  | null => simp [coerceInt] at h
-  | list l => simp [coerceInt] at h
-  | obj kvs => simp [coerceInt] at h
-  | bool b =>
-    simp only [coerceInt] at h
-    obtain ⟨rfl, _⟩ := rangeChecked_ok h; exact ⟨.intBool hn, rfl⟩
-  | int k =>
-    simp only [coerceInt] at h
-    obtain ⟨rfl, hr⟩ := rangeChecked_ok h; exact ⟨.int hn hr, rfl⟩
-  | float t i c =>
-    cases i with
-    | none => cases c <;> simp [coerceInt] at h
-    | some k =>
-      simp only [coerceInt] at h
-      obtain ⟨rfl, hr⟩ := rangeChecked_ok h; exact ⟨.int hn hr, rfl⟩
-  | str s a b =>
-    simp only [coerceInt] at h
-    split at h
-    · cases h
-    · split at h
-      · obtain ⟨rfl, hr⟩ := rangeChecked_ok h; exact ⟨.int hn hr, rfl⟩
-      · split at h
-        · obtain ⟨rfl, hr⟩ := rangeChecked_ok h; exact ⟨.int hn hr, rfl⟩
-        · cases h
+  unfold coerceInt at h
+  repeat' split at h
+  all_goals first
+    | (obtain ⟨rfl, hr⟩ := rangeChecked_ok h
+       first
+         | exact ⟨.intBool hn, rfl⟩
+         | exact ⟨.int hn hr, rfl⟩)
+    | cases h
 
 private theorem coerceFloat_sound {reg : Reg} {n : String} (hn : reg.get? n = some .float) {v : JV} {pv : PV}
     (h : coerceFloat v = .ok pv) : Conforms reg (.named n) pv ∧ pv.isNone = false := by
-  cases v with
-  | null => simp [coerceFloat] at h
-  | list l => simp [coerceFloat] at h
-  | obj kvs => simp [coerceFloat] at h
-  | bool b => simp only [coerceFloat] at h; obtain ⟨rfl, _⟩ := floatChecked_ok h; exact ⟨.float hn, rfl⟩
-  | int k => simp only [coerceFloat] at h; obtain ⟨rfl, _⟩ := floatChecked_ok h; exact ⟨.float hn, rfl⟩
-  | float t i c => simp only [coerceFloat] at h; obtain ⟨rfl, _⟩ := floatChecked_ok h; exact ⟨.float hn, rfl⟩
-  | str s a b =>
-    simp only [coerceFloat] at h
-    split at h
-    · cases h
-    · split at h
-      · obtain ⟨rfl, _⟩ := floatChecked_ok h; exact ⟨.float hn, rfl⟩
-      · cases h
+  unfold coerceFloat at h
+  repeat' split at h
+  all_goals first
+    | (obtain ⟨rfl, _⟩ := floatChecked_ok h; exact ⟨.float hn, rfl⟩)
+    | cases h
 
 private theorem pvOfJson_notNone {v : JV} (h : v.isNull = false) : (pvOfJson v).isNone = false := by
   cases v <;> simp_all [pvOfJson, PV.isNone, JV.isNull]
@@ -111,8 +85,11 @@ private theorem coerceCore_sound {reg : Reg} (hreg : RegOK reg) {rec : Ty → JV
         unfold parseId at h
         split at h <;> first | (cases h; exact ⟨.id hk, fun _ => rfl⟩) | cases h
       · rename_i hk
-        cases h
-        exact ⟨.custom hk, fun _ => pvOfJson_notNone hnull'⟩
+        have hv : reg.customParse n v = .value pv := by
+          cases hp : reg.customParse n v <;> simp [hp, ParseOut.toR] at h
+          subst h; rfl
+        have hok : CustomOK reg n pv := .inl ⟨v, hnull', hv⟩
+        exact ⟨.custom hk hok, fun _ => hreg.customNotNone n pv hk hok⟩
       · rename_i vs hk
         split at h
         · obtain ⟨p, hp, rfl, _⟩ := getValue_mem h
@@ -169,8 +146,7 @@ private theorem parseLiteral_sound {reg : Reg} {n : String} {k : NamedT} (hk : r
   cases k with
   | enum vs => exact absurd rfl (hne vs)
   | input fs => exact absurd rfl (hni fs)
-  | custom =>
-    cases l <;> simp [parseLiteral] at h <;> subst h <;> exact ⟨.custom hk, rfl⟩
+  | custom => simp [parseLiteral] at h
   | int =>
     cases l <;> simp only [parseLiteral] at h <;> split at h <;> try cases h
     obtain ⟨rfl, hr⟩ := rangeChecked_ok h; exact ⟨.int hk hr, rfl⟩
@@ -179,6 +155,9 @@ private theorem parseLiteral_sound {reg : Reg} {n : String} {k : NamedT} (hk : r
     all_goals first
       | (obtain ⟨rfl, _⟩ := floatChecked_ok h; exact ⟨.float hk, rfl⟩)
       | cases h
+      | (split at h
+         · obtain ⟨rfl, _⟩ := floatChecked_ok h; exact ⟨.float hk, rfl⟩
+         · cases h)
   | string =>
     cases l <;> simp only [parseLiteral] at h <;> split at h <;> try cases h
     all_goals exact ⟨.string hk, rfl⟩
@@ -308,7 +287,16 @@ private theorem vfaCore_sound {reg : Reg} (hreg : RegOK reg) {vars : Option (Lis
         · obtain ⟨p, hp, rfl, _⟩ := getValue_mem h
           exact ⟨.enum hk hp, fun _ => hreg.enumNotNone n vs hk p hp⟩
         · cases h
-      · rename_i k hni hne hk
+      · rename_i hk
+        split at h
+        · rename_i hsl
+          have hv : reg.customParseLiteral n l = .value pv := by
+            cases hp : reg.customParseLiteral n l <;> simp [hp, ParseOut.toR] at h
+            subst h; rfl
+          have hok : CustomOK reg n pv := .inr ⟨l, hsl, hv⟩
+          exact ⟨.custom hk hok, fun _ => hreg.customNotNone n pv hk hok⟩
+        · cases h
+      · rename_i k hni hne hnc hk
         split at h
         · have := parseLiteral_sound hk (fun vs hv => hne vs hv) (fun fs hv => hni fs hv) h
           exact ⟨this.1, fun _ => this.2⟩
